@@ -36,6 +36,7 @@ def main():
         for a, b in (("7", "7.0"), ("12.0", "12"), ("0", "-0.0"), ("1000", "1e3"), ("5", "5e0"), ("3.0", "3")):
             free += [f"{a} {u}", f"{b} {u}"]
     free += [x for s_ in T.get("non_units", []) for x in (s_, f"5 {s_}", f"m/{s_}", f"{s_}²")]
+    free += ["nan", "NaN", "-nan", "+NAN", " nan ", "inf", "-inf", "Infinity", "12", "1.5", "-7", "1e3", "9" * 4400, "9" * 4301, "nan m", "inf m", "1_000 m", "1_0", "0x10 m", "٣ m"]    # numbers on their own, Python-only numeral spellings
     free += ["km zeebles", "Mm kg $", "5 mA zeebles", "mA/zeebles", "kHz⋅zz", "μs ms ns qq", "5 km/", "km ^2", "kHz MHz GHz THz zz"]     # a prefixed unit resolved before the input is rejected
     alphabet = "mskgKAΩμ°.-()15 ^*/⋅²⁻¹eE+\t\n" + "".join(chr(rng.randrange(32, 0x3000)) for _ in range(40)) + "\u0000퟿\U0001F600"
     for _ in range(500 if quick else 10000):
@@ -68,6 +69,8 @@ def main():
                 k = x["m"][0]
                 if k not in ("int", "float"):
                     c.violation("magnitude-type", f"magnitude of kind {k}", repl)
+                if len(x["m"]) == 2 and "nan" in str(x["m"][1]).lower():
+                    c.violation("magnitude-nan", "an accepted quantity has a NaN magnitude (neither finite nor infinite)", repl)
                 written = "int" if re.fullmatch(r"[+-]?[0-9]+", lit) else ("float" if re.fullmatch(r"[+-]?([0-9]+\.[0-9]*|\.[0-9]+|[0-9]+)([eE][+-]?[0-9]+)?", lit) else None)
                 if written and k != written:
                     c.violation("magnitude-type-written", f"the magnitude was written as {written} ({lit!r}) but came back as {k}", repl)
